@@ -39,8 +39,26 @@ def ob_glue_cover(ob):
                 seen_known[cls] = (doc.string, mode, w)
         return not unexpected
 
-    st = explore(P.make_target(mmax, fill, modes, oracle), timeout=ob.params.get('cap', 900), max_viol=20)
-    info = dict(bound=f'documents of 0..{mmax} segments x fillers {[P.FILLERS[f] for f in fill]} x modes {modes}',
+    if ob.params.get('three'):
+        # three-segment documents of restricted shape (Twp/Rge or section first, then sections) so that several tracts and
+        # several unused blocks occur together already in the quick tier
+        from engine.xh import choose
+
+        def target(v0: int, v1: int, v2: int, f0: int, f1: int, f2: int, f3: int, mode: int):
+            variants = [choose(v0, (0, 1)), choose(v1, (0, 1, 2)), choose(v2, (1, 2))]
+            fillers = [choose(f, fill) for f in (f0, f1, f2, f3)]
+            md = choose(mode, modes)
+            doc = P.build_doc(variants, fillers)
+            try:
+                parser = P.run_parser(doc, md)
+            except Exception as e:  # noqa
+                return oracle(doc, md, None, e)
+            return oracle(doc, md, parser, None)
+        st = explore(target, timeout=ob.params.get('cap', 900), max_viol=20)
+    else:
+        st = explore(P.make_target(mmax, fill, modes, oracle), timeout=ob.params.get('cap', 900), max_viol=20)
+    info = dict(bound=(f'3-segment documents (Twp/Rge|section, Twp/Rge|section, section) x fillers {[P.FILLERS[f] for f in fill]} x modes {modes}' if ob.params.get('three') else
+                       f'documents of 0..{mmax} segments x fillers {[P.FILLERS[f] for f in fill]} x modes {modes}'),
                 samples=[{'doc': ' xq1z T150N-R90W Sec 11: NE/4 ', 'mode': modes[0], 'by_design_classes_seen': sorted(seen_known)}])
     known_viols = [violation(f'dropped:{cls}', f'PLSSDesc({text!r}, config={mode_cfg(mode)!r}): the word {w!r} is in no tract '
                              f'description and no unused_desc flag', 'c04_words', {'text': text, 'config': mode_cfg(mode), 'cls': cls})
@@ -49,7 +67,14 @@ def ob_glue_cover(ob):
     def mk(vs):
         out = {}
         for v in vs:
-            variants, fillers, mode = P.decode(v['args'], mmax, fill, modes)
+            if ob.params.get('three'):
+                a = v['args']
+                cl = lambda x, n: x if 0 <= x < n - 1 else n - 1
+                variants = [(0, 1)[cl(a['v0'], 2)], (0, 1, 2)[cl(a['v1'], 3)], (1, 2)[cl(a['v2'], 2)]]
+                fillers = [list(fill)[cl(a[f'f{i}'], len(fill))] for i in range(4)]
+                mode = list(modes)[cl(a['mode'], len(modes))]
+            else:
+                variants, fillers, mode = P.decode(v['args'], mmax, fill, modes)
             doc = P.build_doc(variants, fillers)
             cfg = mode_cfg(mode)
             try:
@@ -143,6 +168,9 @@ def obligations(tier):
         obs.append(Ob(f'cover_{mname}', 'S', ob_glue_cover, f'every filler word accounted for, mode {mname}', functions=G, weight=6,
                       timeout=7000, params={'mmax': 2 if q else 3, 'fill': (0, 2, 3, 4) if q else (0, 3, 5), 'modes': [mname],
                                             'cap': 2100 if q else 6500}))
+    for grp in (['sec_within', 'segment_within'], ['default', 'segment'], ['colon_cautious', 'TR_desc_S']):
+        obs.append(Ob(f'cover3_{grp[0]}', 'S', ob_glue_cover, f'three-segment documents, modes {grp}', functions=G, weight=6, timeout=7000,
+                      params={'mmax': 3, 'fill': (0, 3, 4), 'modes': grp, 'cap': 2100, 'three': True}))
     for pname in ('twprge_regex', 'pp_twprge_no_nswe', 'pp_twprge_no_nsr', 'pp_twprge_no_ewt', 'pp_twprge_pm', 'pp_twprge_comma_remove'):
         obs.append(Ob(f'pp_span_{pname}', 'M', ob_pp_span, f'{pname} never reaches into a following prose word', functions=[pname],
                       weight=8, timeout=3000, params={'pattern': pname, 'N': 32 if q else 44, 'wlen': 5 if q else 10, 'cap': 600 if q else 3000}))
